@@ -282,12 +282,32 @@ def _wall(name, xs_ref):
 
 
 def _ref_points(geom, sigma, nR, nZ):
-    f = vfam.psi_analytic(geom, sigma)
+    tilt = 0.0
+    if "@" in geom:
+        # "lsn@35": the family member rotated by 35 degrees about the magnetic axis (1.5, 0): the
+        # X-point is no longer below the axis, and both strike points can lie on one side of it
+        geom, t_ = geom.split("@")
+        tilt = np.deg2rad(float(t_))
+    f0 = vfam.psi_analytic(geom, sigma)
+    c_, s_ = np.cos(tilt), np.sin(tilt)
+    if tilt:
+        def f(R, Z):
+            R = np.asarray(R, dtype=float)
+            Z = np.asarray(Z, dtype=float)
+            return f0(1.5 + c_ * (R - 1.5) + s_ * Z, -s_ * (R - 1.5) + c_ * Z)
+    else:
+        f = f0
     R1, Z1 = np.linspace(1.0, 2.0, nR), np.linspace(-0.7, 0.7, nZ)
     R2, Z2 = np.meshgrid(R1, Z1, indexing="ij")
     psi = f(R2, Z2)
     ref = interp.SplineRef(R1, Z1, psi)
-    o, xs = vfam.axis_and_separatrices(f)
+    o, xs = vfam.axis_and_separatrices(f0)
+    if tilt:
+        def rot(p):
+            q = dict(p)
+            q["R"], q["Z"] = 1.5 + c_ * (p["R"] - 1.5) - s_ * p["Z"], s_ * (p["R"] - 1.5) + c_ * p["Z"]
+            return q
+        o, xs = rot(o), [rot(x) for x in xs]
     ro = interp.newton_critical(ref, o["R"], o["Z"])
     pax = float(ref.psi(*ro))
     xr = []
@@ -616,6 +636,11 @@ def tasks_for(tier, seed):
         for sigma in (1.0, -1.0):
             for res in eq_res:
                 B.append(dict(kind="eq", geom=geom, sigma=sigma, res=list(res), walls=walls))
+    # tilted single nulls: both strike points on the same side of the magnetic axis in one of
+    # the two (inner/outer is decided by the strike points' major radii, not by the axis)
+    for geom in ("lsn@35", "lsn@-35", "usn@35", "usn@-35"):
+        for sigma in (1.0, -1.0):
+            B.append(dict(kind="eq", geom=geom, sigma=sigma, res=[65, 65], walls=["W0"]))
     C = []
     sp_res = [(33, 33), (65, 97)] if tier == "quick" else [(33, 33), (65, 97), (129, 129)]
     for (name, theta) in SADDLE_BOXES:
